@@ -150,10 +150,12 @@ impl InterfaceInner {
     pub fn has_solicited_node(&self, addr: Ipv6Address) -> bool {
         self.ip_addrs.iter().any(|cidr| {
             match *cidr {
-                IpCidr::Ipv6(cidr) if cidr.address() != Ipv6Address::LOCALHOST => {
+                IpCidr::Ipv6(cidr)
+                    if cidr.address() != Ipv6Address::LOCALHOST && cidr.address().x_is_unicast() =>
+                {
                     // Take the lower order 24 bits of the IPv6 address and
                     // append those bits to FF02:0:0:0:0:1:FF00::/104.
-                    addr.octets()[14..] == cidr.address().octets()[14..]
+                    addr == cidr.address().solicited_node()
                 }
                 _ => false,
             }
